@@ -168,6 +168,19 @@ func ruleC18(w *World) {
 				}
 			}
 		})
+		// every method of the inspector (or of a type embedding it) belongs to the set, even if it only calls helpers
+		if fn.Signature.Recv() != nil {
+			rt := deref(fn.Signature.Recv().Type())
+			if types.Identical(rt, T) {
+				touches = true
+			} else if st, ok := rt.Underlying().(*types.Struct); ok {
+				for i := 0; i < st.NumFields(); i++ {
+					if st.Field(i).Embedded() && types.Identical(deref(st.Field(i).Type()), T) {
+						touches = true
+					}
+				}
+			}
+		}
 		if touches {
 			fns = append(fns, fn)
 		}
@@ -276,6 +289,19 @@ func ruleC18(w *World) {
 			break
 		}
 	}
+	// for helpers: which callers reach them without (enough of) the lock
+	weakCallers := func(fn *ssa.Function, need int) string {
+		var out []string
+		for _, c := range callersIn[fn] {
+			if st, ok := la.at[c.(ssa.Instruction)]; ok && st < need {
+				out = append(out, fmt.Sprintf("%s at %s (%s)", fnKey(c.Parent()), w.pos(c.Pos()), lkName(st)))
+			}
+		}
+		if len(out) == 0 {
+			return ""
+		}
+		return "; called from " + strings.Join(out, ", ")
+	}
 	// R1: every access to a guarded field is inside a critical section (writes: exclusive)
 	for _, a := range accs {
 		if _, g := guarded[a.fld]; !g || ctor[a.fn] {
@@ -287,9 +313,9 @@ func ruleC18(w *World) {
 		}
 		key := fmt.Sprintf("%s/%s:%s", fnKey(a.fn), a.what, a.fld.Name())
 		if a.write {
-			w.check(st == lkW, "C18.R1", key, a.ins.Pos(), "mutation under the exclusive lock", fmt.Sprintf("field `%s` is mutated (%s) while the mutex is %s (entry state of %s: %s)", a.fld.Name(), a.what, lkName(st), fnKey(a.fn), lkName(la.entry[a.fn])))
+			w.check(st == lkW, "C18.R1", key, a.ins.Pos(), "mutation under the exclusive lock", fmt.Sprintf("field `%s` is mutated (%s) while the mutex is %s (entry state of %s: %s%s)", a.fld.Name(), a.what, lkName(st), fnKey(a.fn), lkName(la.entry[a.fn]), weakCallers(a.fn, lkW)))
 		} else {
-			w.check(st == lkW || st == lkR, "C18.R1", key, a.ins.Pos(), "read under the lock", fmt.Sprintf("field `%s` is read while the mutex is %s (entry state of %s: %s) — a check-then-act gap or data race under concurrent use", a.fld.Name(), lkName(st), fnKey(a.fn), lkName(la.entry[a.fn])))
+			w.check(st == lkW || st == lkR, "C18.R1", key, a.ins.Pos(), "read under the lock", fmt.Sprintf("field `%s` is read while the mutex is %s (entry state of %s: %s%s) — a check-then-act gap or data race under concurrent use", a.fld.Name(), lkName(st), fnKey(a.fn), lkName(la.entry[a.fn]), weakCallers(a.fn, lkR)))
 		}
 	}
 	// R2: shape — per entry point at most one acquire site, released only by a deferred unlock,
